@@ -201,6 +201,24 @@ class Run:
         }
 
 
+class Timeout(Exception):
+    pass
+
+
+def with_watchdog(fn, seconds=5):
+    import signal
+
+    def _alarm(signum, frame):
+        raise Timeout()
+    old = signal.signal(signal.SIGALRM, _alarm)
+    signal.alarm(seconds)
+    try:
+        return fn()
+    finally:
+        signal.alarm(0)
+        signal.signal(signal.SIGALRM, old)
+
+
 def canon_triples(ts):
     return sorted(((s, r, None if t is None else str(t)) for s, r, t in ts),
                   key=repr)
